@@ -341,9 +341,17 @@ def run(ctx):
             for e in p.events:
                 if e.kind == "RETURN" and e.depth:
                     continue          # the return of a helper S inlined
-                if e.kind in ("TRY", "CATCH", "ENDCATCH", "ITER", "LOOP", "LOOPEND", "RETURN", "FINALLY"):
-                    row.append((e.kind,))
+                # what is compared is what the method does -- guards, effects, sub-calls, which exceptions it catches, how it ends -- not the layout of
+                # its loops and handlers (a `try` around the member loop and one inside it that breaks are the same method)
+                if e.kind in ("TRY", "ENDCATCH", "ITER", "LOOP", "LOOPEND", "RETURN", "FINALLY"):
                     continue
+                if e.kind == "CATCH":
+                    row.append(("CATCH", tuple(e["types"])))
+                    continue
+                if e.kind == "ASSUME":
+                    g_ = N.canon_lids(e.sig())
+                    if g_ in row:
+                        continue          # a condition tested twice on one path is one condition
                 if e.kind == "ASSUME" and drop_discard and N.contains(e["cond"], N.selfattr("discard")):
                     continue
                 if e.kind == "GETITEM":
